@@ -141,6 +141,12 @@ class Views(Scenario):
         total_rows = len(orows)
         for ri, read in enumerate(self.reads):
             self.do_read(ctx, sim, read, f"read{ri}:{read}", orows, sets, names, total_rows)
+        if self.late:
+            # the parameter values the model was given after the result existed are still in force after reading views
+            with ctx.impl("parameter values after reading"):
+                pv = m.get_parameter_values()
+            ctx.eq("reading views leaves the model's later parameter value in force [k1]", pv["k1"], ctx.real("late_k1"))
+            ctx.eq("reading views leaves the model's later parameter value in force [k2]", pv["k2"], ctx.real("late_k2"))
 
     # -- one view ------------------------------------------------------------------------
     def compare(self, ctx, tag, df, orows, cols, value, divisor=None):
